@@ -1,7 +1,7 @@
 #!/bin/bash
 # Validation aid: run the thorough-only harnesses of every property (no evidence), record outcomes.
 cd /verif
-out=build/extras.txt; : > $out
+out=build/extras_${EXTRAS_TAG:-a}.txt; : > $out
 for p in "$@"; do
   s=$(date +%s)
   ./check $p --tier thorough --extras-only --no-evidence > build/extras_$p.out 2> build/extras_$p.err; rc=$?
